@@ -103,6 +103,28 @@ Proof.
       destruct q; simpl in *. subst. reflexivity.
 Qed.
 
+(* resolving what has been resolved: harmless exactly when no resolved value begins with "$" -
+   which is why writing the resolved values back into the configuration would be a defect even
+   with a constant environment *)
+Definition no_dollar (xs : list (string * string)) : bool := forallb (fun p => negb (starts_dollar (snd p))) xs.
+
+Lemma resolve_resolved en xs : no_dollar xs = true -> resolve_headers en xs = inr xs.
+Proof.
+  induction xs as [|[k v] xs IH]; simpl; [reflexivity|]. intro H. apply andb_true_iff in H as [H1 H2].
+  apply negb_true_iff in H1. rewrite (header_value_plain en v H1), (IH H2). reflexivity.
+Qed.
+
+Theorem resolve_idempotent_partial en hs xs :
+  resolve_headers en hs = inr xs -> no_dollar xs = true -> resolve_headers en xs = inr xs.
+Proof. intros _ H. apply resolve_resolved. exact H. Qed.
+
+(* histories: every generation sees the configuration as written, whatever happened before *)
+Theorem history_independent cfg ens :
+  run_history cfg ens = (map (fun en => request_of en cfg) ens, cfg).
+Proof.
+  induction ens as [|en r IH]; simpl; [reflexivity|]. rewrite IH. reflexivity.
+Qed.
+
 (* ------------------------------------------------------------------ the decision chain *)
 Lemma jhas_lookup k kv : jhas k kv = true -> exists v, jlookup k kv = Some v.
 Proof. unfold jhas. destruct (jlookup k kv); [eauto | discriminate]. Qed.
